@@ -494,6 +494,71 @@ func checkC16(p *core.Program, r *core.Report) {
 	if n2 == 0 {
 		r.Unresolved(R2, "TXT parser function")
 	}
+	// R2b: the value is handed on byte for byte
+	for _, fn := range p.FuncsOf("mdns") {
+		if fn.Signature.Results().Len() != 1 || fn.Signature.Params().Len() != 1 {
+			continue
+		}
+		if _, ok := fn.Signature.Results().At(0).Type().Underlying().(*types.Map); !ok {
+			continue
+		}
+		var pure func(v ssa.Value, depth int) (bool, string)
+		pure = func(v ssa.Value, depth int) (bool, string) {
+			if depth == 0 {
+				return false, "derivation too deep"
+			}
+			switch x := v.(type) {
+			case *ssa.Extract:
+				if c, ok := x.Tuple.(*ssa.Call); ok {
+					switch core.CalleeName(&c.Call) {
+					case "strings.Cut", "strings.CutPrefix", "strings.CutSuffix":
+						return true, ""
+					}
+					return false, "result of " + core.CalleeName(&c.Call)
+				}
+				return true, "" // range / map element
+			case *ssa.Slice:
+				return pure(x.X, depth-1)
+			case *ssa.UnOp:
+				if ia, ok := x.X.(*ssa.IndexAddr); ok {
+					if c, ok := ia.X.(*ssa.Call); ok {
+						if n := core.CalleeName(&c.Call); n != "strings.SplitN" {
+							return false, "result of " + n
+						}
+					}
+					return true, ""
+				}
+				return true, ""
+			case *ssa.Phi:
+				for _, e := range x.Edges {
+					if ok, why := pure(e, depth-1); !ok {
+						return false, why
+					}
+				}
+				return true, ""
+			case *ssa.Call:
+				return false, "result of " + core.CalleeName(&x.Call)
+			case *ssa.BinOp:
+				return false, "a concatenation"
+			case *ssa.Const, *ssa.Parameter:
+				return true, ""
+			}
+			return true, ""
+		}
+		core.EachInstr(fn, func(in ssa.Instruction) {
+			mu, ok := in.(*ssa.MapUpdate)
+			if !ok {
+				return
+			}
+			key := "TXT parser " + p.FnName(fn) + " stores the value unchanged"
+			if ok, why := pure(mu.Value, 8); ok {
+				r.OK(R2, key, p.Pos(in.Pos()), "the stored value is a piece of the TXT element (cut/slice only)")
+			} else {
+				r.Fail(R2, key, p.Pos(in.Pos()), "the value stored for a TXT key is "+why+", not the bytes after the first '=': an announced value (e.g. one shortened behind a blank) is read back altered")
+			}
+		})
+	}
+	r.Floor(R2, 2)
 
 	// ---- R3
 	ctor := p.Func("mdns", "NewMDNS")
@@ -549,6 +614,12 @@ func checkC16(p *core.Program, r *core.Report) {
 				nsl++
 				key := "cut in " + p.FnName(helper)
 				raw := sl.High != nil && (core.Canon(sl.High) == ssa.Value(lim) || core.ConstOf(sl.High) != nil)
+				if !raw && idiom && sl.High != nil {
+					if why := runeStartEstablished(helper, sl, sparam); why != "" {
+						r.Fail(R3, key, p.Pos(in.Pos()), why)
+						return
+					}
+				}
 				if raw || !idiom {
 					r.Fail(R3, key, p.Pos(in.Pos()), "the string is cut at the raw byte bound: a multi-byte character straddling the bound is split and invalid UTF-8 is announced")
 				} else {
@@ -723,4 +794,96 @@ func eachInstrWithCallees(p *core.Program, fn *ssa.Function, pkg string, depth i
 		})
 	}
 	visit(fn, depth)
+}
+
+
+// runeStartEstablished: when the helper establishes its cut position with utf8.RuneStart(s[cut]), every
+// decisive branch edge leading into the slice must either have seen RuneStart(s[cut]) == true for the
+// very value the slice uses, or cut <= 0. Returns "" when that holds (or the helper uses another idiom).
+func runeStartEstablished(helper *ssa.Function, sl *ssa.Slice, sparam ssa.Value) string {
+	uses := false
+	core.EachInstr(helper, func(in ssa.Instruction) {
+		if c := core.Common(in); c != nil && core.CalleeName(c) == "unicode/utf8.RuneStart" {
+			uses = true
+		}
+	})
+	if !uses {
+		return ""
+	}
+	high := sl.High
+	isHigh := func(v ssa.Value) bool { return v == high || core.Canon(v) == core.Canon(high) }
+	okEdge := func(b *ssa.BasicBlock, idx int) bool {
+		i := core.BlockIf(b)
+		if i == nil {
+			return false
+		}
+		v, truth := core.Truth(i.Cond, idx)
+		switch x := v.(type) {
+		case *ssa.Call:
+			if core.CalleeName(&x.Call) != "unicode/utf8.RuneStart" || !truth {
+				return false
+			}
+			var idxV, strV ssa.Value
+			switch a := x.Call.Args[0].(type) {
+			case *ssa.Lookup:
+				idxV, strV = a.Index, a.X
+			case *ssa.Index:
+				idxV, strV = a.Index, a.X
+			case *ssa.UnOp:
+				if ia, ok := a.X.(*ssa.IndexAddr); ok {
+					idxV, strV = ia.Index, ia.X
+				}
+			}
+			return idxV != nil && isHigh(idxV) && core.Canon(strV) == core.Canon(sparam)
+		case *ssa.BinOp:
+			k := func(v ssa.Value) (int64, bool) { return intConst(v) }
+			if isHigh(x.X) {
+				if c, ok := k(x.Y); ok {
+					switch {
+					case x.Op == token.GTR && c == 0 && !truth, x.Op == token.LEQ && c == 0 && truth,
+						x.Op == token.EQL && c == 0 && truth, x.Op == token.NEQ && c == 0 && !truth,
+						x.Op == token.GEQ && c == 1 && !truth, x.Op == token.LSS && c == 1 && truth:
+						return true
+					}
+				}
+			}
+			if isHigh(x.Y) {
+				if c, ok := k(x.X); ok {
+					switch {
+					case x.Op == token.LSS && c == 0 && !truth, x.Op == token.GEQ && c == 0 && truth,
+						x.Op == token.EQL && c == 0 && truth, x.Op == token.NEQ && c == 0 && !truth:
+						return true
+					}
+				}
+			}
+		}
+		return false
+	}
+	// decisive edges: walk back from the slice's block over unconditional jumps
+	seen := map[*ssa.BasicBlock]bool{}
+	var bad string
+	var back func(b *ssa.BasicBlock)
+	back = func(b *ssa.BasicBlock) {
+		if seen[b] || bad != "" {
+			return
+		}
+		seen[b] = true
+		if len(b.Preds) == 0 {
+			bad = "the cut position reaches the slice without any rune-boundary test"
+			return
+		}
+		for _, pr := range b.Preds {
+			if core.BlockIf(pr) == nil {
+				back(pr)
+				continue
+			}
+			for idx, su := range pr.Succs {
+				if su == b && !okEdge(pr, idx) {
+					bad = "the loop that moves the cut back to a rune start can be left on a branch that is neither 'RuneStart(s[cut]) is true' nor 'cut <= 0' (a step limit or another condition): the slice then cuts inside a multi-byte character and invalid UTF-8 is announced"
+				}
+			}
+		}
+	}
+	back(sl.Block())
+	return bad
 }
